@@ -331,7 +331,9 @@ def dot_method_units(repo: Repo):
         fm = dict(o.facts)
         eff = [val for kind, tgt, val in o.effects if kind == "setattr" and tgt == f"{fn.params[2]}.units"]
         inst = fm.get(f"isinstance({fn.params[2]}, unyt_array)")
-        may_be_unyt_out = inst is True or (inst is None and fm.get("out is not None"))
+        from engine.flow import fact_get
+
+        may_be_unyt_out = inst is True or (inst is None and fact_get(fm, "out is not None"))
         if may_be_unyt_out or eff:
             ok = len(eff) == 1 and isinstance(eff[0], Un) and not eff[0].mono.is_opaque and eff[0].mono.same(want)
             yield (f"dot:out-units[{tag}]", ok, fn.where(), "a.dot(b, out=o) must label o with the product of the operands' units", str(want), repr(eff))
